@@ -378,7 +378,8 @@ def typeEqual (l r : Val F) : Val F :=
 
 /-! ### apply without a frame (apply.rs `apply_internal`, the arms that do not enter an expression) -/
 
-/-- `List <~ SymbolList`: follow the path; a miss ends with unit -/
+/-- `List <~ SymbolList`: follow the path; a miss — nothing under the key, or a value that cannot be looked into with this
+kind of key — ends with unit -/
 def accessPath : List (SymPart F) → Val F → Acc F
   | [], cur => .some cur
   | p :: ps, cur =>
@@ -388,7 +389,7 @@ def accessPath : List (SymPart F) → Val F → Acc F
     match r with
     | .some v => accessPath ps v
     | .none => .some .unit
-    | .unsupported => .unsupported
+    | .unsupported => .some .unit      -- a value that cannot be looked into with this kind of key ends the path (repo fix)
     | .err e => .err e
 
 /-- `narrow_range to_narrow by` -/
